@@ -195,10 +195,13 @@ def _explain_worker(task):
         class CulpritWarning2(UserWarning):
             def __init__(self, message, culprits):
                 super().__init__(message); self.culprits = culprits
+        from beartype import FrozenDict as _FD
+        shapes.NS.setdefault('FrozenDict', _FD)
         CONFS = {'default': (BeartypeConf(), BeartypeDoorHintViolation, BeartypeCallHintParamViolation, BeartypeCallHintReturnViolation, False),
                  'custom': (BeartypeConf(violation_door_type=VDoor, violation_param_type=VParam, violation_return_type=VRet), VDoor, VParam, VRet, False),
                  'mixed': (BeartypeConf(violation_param_type=VParam, violation_return_type=WDoor, violation_door_type=WDoor), WDoor, VParam, WDoor, True),
                  'culpritwarn': (BeartypeConf(violation_type=CulpritWarning2), CulpritWarning2, CulpritWarning2, CulpritWarning2, True),
+                 'ovorigin': (BeartypeConf(hint_overrides=shapes.NS['FrozenDict']({list: tuple, dict: shapes.NS['Mapping']})), BeartypeDoorHintViolation, BeartypeCallHintParamViolation, BeartypeCallHintReturnViolation, False),
                  'nonrandom': (BeartypeConf(is_random=False), BeartypeDoorHintViolation, BeartypeCallHintParamViolation, BeartypeCallHintReturnViolation, False),
                  'On': (BeartypeConf(strategy=shapes.NS['BeartypeStrategy'].On), BeartypeDoorHintViolation, BeartypeCallHintParamViolation, BeartypeCallHintReturnViolation, False)}
         conf, Vd, Vp, Vr, _ = CONFS[conf_name]
@@ -273,7 +276,7 @@ def explain(rep, tier, seed):
     # a validator that is only evaluated because an earlier operand short-circuits on the fast path
     hints += ['Annotated[list, AND(IS(nonempty), IS(firstpos))]', 'Annotated[list, AND(IS(nonempty), OR(IS(firstpos), ISEQ(5)))]', 'Annotated[list, AND(IS(nonempty), NOT(IS(firstpos)))]']
     hints += ['(int, list[int])', '(L0, str)', 'NoReturn' if False else 'tuple[()]']      # old-style tuple unions as root hints
-    T = [(h, c) for h in hints for c in confs] + [(h, 'mixed') for h in hints[:40]] + [(h, 'culpritwarn') for h in hints[:12] + ['(int, list[int])']] + [(h, 'On') for h in hints[::3]] + [(h, 'nonrandom') for h in hints[::5]]
+    T = [(h, c) for h in hints for c in confs] + [(h, 'mixed') for h in hints[:40]] + [(h, 'culpritwarn') for h in hints[:12] + ['(int, list[int])']] + [(h, 'ovorigin') for h in ('list[int]', 'list[L0]', 'dict[str, int]', 'tuple[list[int], int]', 'Optional[list[str]]')] + [(h, 'On') for h in hints[::3]] + [(h, 'nonrandom') for h in hints[::5]]
     T = list(dict.fromkeys(T))
     with mp.get_context('fork').Pool(int(os.environ.get('VERIF_PROCS', '16')), maxtasksperchild=10) as pool:
         res = pool.map(_explain_worker, T, chunksize=2)
@@ -281,7 +284,7 @@ def explain(rep, tier, seed):
     for r in res:
         if r.get('error'): rep.error(f'C03.explain[{r["shape"]}|{r["conf"]}]: {r["error"]}'); continue
         for osrc, d, msg in r['fails']:
-            sig = classify_explain(msg); groups.setdefault(sig, []).append((r['shape'], r['conf'], osrc, d, msg))
+            sig = classify_explain(msg) + ('.under_origin_override' if r['conf'] == 'ovorigin' else ''); groups.setdefault(sig, []).append((r['shape'], r['conf'], osrc, d, msg))
     for sig, items in sorted(groups.items()):
         items.sort(key=lambda t: (len(t[0]), len(t[2]))); sh, cf, osrc, d, msg = items[0]
         script = (f'from props.c03 import _explain_worker\nr = _explain_worker(({sh!r}, {cf!r}))\nbad = [f for f in r["fails"] if f[0] == {osrc!r}]\nprint("REPRODUCED" if bad else "not reproduced", bad[:2])\nsys.exit(1 if bad else 0)\n')
